@@ -459,10 +459,26 @@ static int recomp_record_fields (hawk_rtx_t* rtx, hawk_oow_t lv, const hawk_oocs
 			vp = hawk_rtx_getvaloocstr(rtx, rtx->inrec.flds[i].val, &vl);
 			if (HAWK_UNLIKELY(!vp)) return -1;
 
+			/* the field is not assigned to but it moves inside the rebuilt record */
+			rtx->inrec.flds[i].len = vl;
+
 			vl = hawk_ooecs_ncat(&rtx->inrec.line, vp, vl);
 			hawk_rtx_freevaloocstr (rtx, rtx->inrec.flds[i].val, vp);
 
 			if (HAWK_UNLIKELY(vl == (hawk_oow_t)-1)) return -1;
+		}
+	}
+
+	/* the buffer may have been reallocated while it was being rebuilt and
+	 * the fields not assigned to are not where they used to be. make every
+	 * field point to its place in the final buffer */
+	{
+		hawk_ooch_t* p = HAWK_OOECS_PTR(&rtx->inrec.line);
+		for (i = 0; i < max; i++)
+		{
+			if (i > 0) p += rtx->gbl.ofs.len;
+			rtx->inrec.flds[i].ptr = p;
+			p += rtx->inrec.flds[i].len;
 		}
 	}
 
@@ -490,7 +506,7 @@ int hawk_rtx_truncrec (hawk_rtx_t* rtx, hawk_oow_t nflds)
 {
 	hawk_val_t* v = HAWK_NULL, * w;
 	hawk_ooch_t* ofs_free = HAWK_NULL, * ofs_ptr;
-	hawk_oow_t ofs_len, i;
+	hawk_oow_t ofs_len = 0, i;
 	hawk_val_type_t vtype;
 	hawk_ooecs_t tmp;
 	int fini_tmp = 0;
@@ -547,6 +563,18 @@ int hawk_rtx_truncrec (hawk_rtx_t* rtx, hawk_oow_t nflds)
 	hawk_ooecs_swap (&tmp, &rtx->inrec.line);
 	hawk_ooecs_fini (&tmp);
 	fini_tmp = 0;
+
+	/* the remaining fields must point into the new buffer,
+	 * not into the old one that has just been freed */
+	{
+		hawk_ooch_t* p = HAWK_OOECS_PTR(&rtx->inrec.line);
+		for (i = 0; i < nflds; i++)
+		{
+			if (i > 0) p += ofs_len;
+			rtx->inrec.flds[i].ptr = p;
+			p += rtx->inrec.flds[i].len;
+		}
+	}
 
 	for (i = nflds; i < rtx->inrec.nflds; i++)
 	{
